@@ -7,7 +7,7 @@ Open Scope nat_scope.
 Inductive xref := XIn (i : nat) | XName (s : string).
 Inductive xbody :=
 | XSel (b : block) (uuid : bool) (from : xref)
-| XSet (k : sclass) (d : bool) (bl : block) (fl : xref) (br : block) (fr : xref).
+| XSet (k : sclass) (d : bool) (uuid : bool) (bl : block) (fl : xref) (br : block) (fr : xref).
 Record xquery := mkXQuery { x_ctes : list (string * xbody); x_main : xbody }.
 
 Fixpoint index_node (n : node) (l : list node) : option nat :=
@@ -34,8 +34,8 @@ Definition is_some {A} (o : option A) : bool := match o with Some _ => true | No
 Definition body_match (xs : list string) (ns : list node) (x : xbody) (n : node) : bool :=
   match x, n with
   | XSel b u fx, NSel _ b' u' fn => blk_eqb b b' && Bool.eqb u (is_some u') && ref_match xs ns fx fn
-  | XSet k d bl fl br fr, NSet _ k' d' bl' fl' br' fr' =>
-      (if sclass_eq_dec k k' then true else false) && Bool.eqb d d' && blk_eqb bl bl' && blk_eqb br br'
+  | XSet k d u bl fl br fr, NSet _ k' d' u' bl' fl' br' fr' =>
+      (if sclass_eq_dec k k' then true else false) && Bool.eqb d d' && Bool.eqb u (is_some u') && blk_eqb bl bl' && blk_eqb br br'
       && ref_match xs ns fl fl' && ref_match xs ns fr fr'
   | _, _ => false
   end.
